@@ -1,18 +1,12 @@
 (* C15 property theorems: statements only; every proof is [exact lemma].
-   [go_safe_b l] (Diag.v) is the explicit boolean hypothesis of the partial theorems: in every
-   quoted string of [l] no braced unicode escape; in every block string no quote that the
-   delimiter re-scan mistakes for a delimiter, well-formed UTF-8, and the Go lexer delimits the
-   token as the specification does.  (Before the repairs it also excluded raw control characters,
-   escaped triple quotes and all-blank block strings; see the c15_history_ theorems.) *)
-From Gv Require Import lib.Bytes lib.Gql C15.Unicode C15.Model C15.Spec C15.Diag
-  C15.ProofsBlock C15.ProofsJson C15.ProofsFwd C15.History C15.Proofs.
+   [go_safe_b l] (Diag.v) is the explicit boolean hypothesis of the partial theorems: in every block
+   string of [l] the Go lexer delimits the token as the specification does ([go_block_lexable]) and the
+   value is well-formed UTF-8; quoted strings need no hypothesis.  (Before the repairs it also
+   excluded raw control characters, escaped triple quotes, all-blank block strings, braced unicode
+   escapes and quotes that the delimiter re-scan took for a delimiter; see the c15_history_ theorems.) *)
+From Gv Require Import lib.Bytes lib.Gql C15.Unicode C15.Model C15.Spec C15.Diag C15.ProofsStr
+  C15.ProofsBlock C15.ProofsRescan C15.ProofsJson C15.ProofsFwd C15.History C15.Proofs.
 From Coq Require Import ZArith.
-
-(* still refuted after the repairs: a braced unicode escape is copied into the JSON as it is *)
-Theorem c15_vars_valid_json_refuted :
-  exists l, lit_valid l /\ json_denote (value_to_json [] l) = JInvalid.
-Proof. exact vars_valid_json_refuted_proof. Qed.
-Print Assumptions c15_vars_valid_json_refuted.
 
 Theorem c15_vars_valid_json_partial : forall vs e l,
   vars_framed vs e -> lit_valid l -> go_safe_b l = true ->
@@ -26,18 +20,26 @@ Theorem c15_value_preserved_partial : forall vs e l,
 Proof. exact value_preserved_partial_proof. Qed.
 Print Assumptions c15_value_preserved_partial.
 
-(* still refuted after the repairs *)
-Theorem c15_value_preserved_refuted_quote_next_to_whitespace :
-  lit_valid w_quote_ws /\
-  exists d, json_denote (value_to_json [] w_quote_ws) = JOk d /\ dval_eqb d (gql_denote [] w_quote_ws) = false.
-Proof. exact value_preserved_refuted_quote_ws_proof. Qed.
-Print Assumptions c15_value_preserved_refuted_quote_next_to_whitespace.
+(* since c15_fix_block-quote-next-to-whitespace: the delimiter re-scan of BlockStringValueContentRawBytes
+   returns the text between the delimiters for every text the Go lexer delimits ... *)
+Theorem c15_rescan_exact : forall raw, go_block_lexable raw = true -> block_rescan raw = raw.
+Proof. exact rescan_exact_proof. Qed.
+Print Assumptions c15_rescan_exact.
 
-(* strengthened by c15_fix_block-blank-only and c15_fix_block-escaped-triple-quote: one hypothesis left *)
+(* ... hence Go's block string value is the specification's BlockStringValue() there (strengthened by
+   c15_fix_block-blank-only, c15_fix_block-escaped-triple-quote and now c15_fix_block-quote-next-to-whitespace:
+   the hypothesis [rescan_exact raw = true] is gone) *)
 Theorem c15_block_value_agrees : forall raw,
-  rescan_exact raw = true -> block_string_value raw = spec_block_value raw.
-Proof. exact block_value_agrees. Qed.
+  go_block_lexable raw = true -> block_string_value raw = spec_block_value raw.
+Proof. exact block_value_agrees_lexable. Qed.
 Print Assumptions c15_block_value_agrees.
+
+(* since c15_fix_braced-unicode-escape: every spec-valid quoted string, braced escapes included, is written
+   as a JSON string that RFC 8259 reads back as the value the GraphQL grammar gives it *)
+Theorem c15_quoted_string_preserved : forall raw out rest,
+  gql_str GPlain raw = Some out -> json_str true (quoted_json raw ++ 34 :: rest) = Some (out, rest).
+Proof. exact quoted_string_preserved_proof. Qed.
+Print Assumptions c15_quoted_string_preserved.
 
 (* historical: the functions the repairs replaced (History.v) *)
 Theorem c15_history_vars_valid_json_refuted_before_fix :
@@ -100,3 +102,19 @@ Theorem c15_value_forwarded : forall tmpl ctx u c v,
   out_get dval u (forward_d tmpl ctx) = Some v.
 Proof. exact (supplied_value_forwarded_proof dval DNull is_dnull). Qed.
 Print Assumptions c15_value_forwarded.
+
+(* HISTORICAL (History.v, version 1 = the code before the last two repairs): a braced unicode escape was
+   copied into the JSON text as it is ... *)
+Theorem c15_history_braced_escape_refuted_before_fix :
+  lit_valid (VStr [92; 117; 123; 52; 49; 125] false) /\
+  json_denote (string_to_json_v1 [92; 117; 123; 52; 49; 125] false) = JInvalid.
+Proof. exact hist_brace_invalid. Qed.
+Print Assumptions c15_history_braced_escape_refuted_before_fix.
+
+(* ... and a quote next to the white space the lexer trims was taken for the delimiter *)
+Theorem c15_history_quote_next_to_whitespace_refuted_before_fix :
+  lit_valid (VStr [32; 34; 32; 32; 97] true) /\
+  exists d, json_denote (string_to_json_v1 [32; 34; 32; 32; 97] true) = JOk d
+            /\ dval_eqb d (gql_denote [] (VStr [32; 34; 32; 32; 97] true)) = false.
+Proof. exact hist_quote_ws_differs. Qed.
+Print Assumptions c15_history_quote_next_to_whitespace_refuted_before_fix.
